@@ -116,16 +116,23 @@ def nested_runs(ctx, n):
 
 def reused_conditions(ctx, n):
     """time conditions are plain objects: one created once (at module level, say) and used by several simulations one after
-    the other, or by an outer and a nested one, names the same date in each of them: every wait resumes exactly there"""
+    the other, or by an outer and a nested one, names the same date in each of them: every wait resumes exactly there.
+    A second batch runs MANY simulations in a row in a fresh child interpreter (harness/reuse_driver.py), where the address of
+    a finished loop is handed to the next one: bookkeeping must be by the loop, not by its address"""
+    import subprocess
     import usim
     from usim import time
     rng = ctx.rng
+    many = []
     for _ in range(n):
         d = rng.choice([2, 3, 5])
         kind = rng.choice(['after', 'moment', 'until-after', 'until-moment'])
+        if rng.random() < 0.25:
+            many.append(dict(kind=kind, date=d, runs=rng.choice([12, 40])))
+            continue
         cond = (time >= d) if 'after' in kind else (time == d)
         nested = rng.random() < 0.4
-        runs = rng.choice([2, 3, 3, 12])       # (many in a row: each finished loop is garbage when the next one is created)
+        runs = rng.choice([2, 3])
         case = {'reused_condition': kind, 'date': d, 'runs': runs, 'nested': nested}
         log = []
 
@@ -145,9 +152,6 @@ def reused_conditions(ctx, n):
         try:
             for k in range(runs):
                 watch.run(outer() if nested else user(k))
-                if runs > 3:
-                    import gc
-                    gc.collect()       # the finished loop is really gone (and its address free) before the next one
         except BaseException as e:   # noqa
             ctx.fail(case, 'raised %r' % (e,), family='reused-conditions')
             continue
@@ -157,6 +161,19 @@ def reused_conditions(ctx, n):
         if log != want:
             ctx.fail(case, 'a %s condition for the date %r used by %d simulations in a row%s: resumed at %r, expected %r'
                      % (kind, d, runs, ' (each with a nested one)' if nested else '', log, want), family='reused-conditions')
+    if many:
+        p = subprocess.run([sys.executable, '-m', 'harness.reuse_driver'], input=json.dumps(many), text=True,
+                           stdout=subprocess.PIPE, stderr=subprocess.PIPE, timeout=600)
+        logs = json.loads(p.stdout) if p.returncode == 0 else [{'error': p.stderr[-300:], 'log': []}] * len(many)
+        for c, log in zip(many, logs):
+            case = {'reused_condition': c['kind'], 'date': c['date'], 'runs': c['runs'], 'fresh_interpreter': True}
+            ctx.count(case, nontrivial=True)
+            ctx.bump('family:reused-conditions')
+            want = [[k, c['date']] for k in range(c['runs'])]
+            if log != want:
+                ctx.fail(case, 'a %s condition for the date %r used by %d simulations in a row (each finished and collected before '
+                               'the next one starts): resumed at %r, expected %r' % (c['kind'], c['date'], c['runs'], log, want),
+                         family='reused-conditions')
 
 
 def exact_clocks(ctx, n):
